@@ -25,7 +25,8 @@ RULE = ("instances of every exported class built with HOSTILE values: decimals o
         "that the constructor accepts is written in XML, closed SGML, unclosed SGML (pretty or not). A case = (class, seed, form); non-trivial = "
         "the instance was accepted and at least one data element was checked")
 ASSUMPTIONS = ["lexical rules from ref_types.py; entity set &amp; &lt; &gt; &quot; &apos; &nbsp; &#n; &#xh;",
-               "'refused' = any exception at construction or at write; control characters other than TAB/LF are not generated"]
+               "'refused' = any exception at construction or at write; control characters other than TAB/LF are not generated",
+               "values also reach repeated data elements through the list interface after construction (append/insert/extend/item assignment/+=): the writer is then the place to refuse them"]
 LEVEL_TEXT = ("Exploration with an always-on post-condition: the monitor judges every data element written by every to_etree() call in the run "
               "(hundreds of thousands of leaves), including those of the C01/C04 workloads it rides on; the hostile stratum aims at the values "
               "str()/strftime() format differently from OFX.")
